@@ -2,7 +2,7 @@
 //! `run(ctx, prop)` is called for every property; the properties this scheme takes part in are
 //! C01 C02 C03 C04 C05 C06 C08 C09 C10 C11 C17 C19.  Case ids `<prop>/ipa-model/…`.
 #[path = "ipa.rs"]
-mod ipa;
+pub mod ipa;
 
 use crate::common::*;
 use crate::wire;
